@@ -120,6 +120,9 @@ type node struct {
 	failStatus, failRT int // cycles left
 	unready            int
 	staleHash          int
+	failReload         int       // cycles during which "POST /-/reload" of this pod's Prometheus fails
+	createdAt          time.Time // harness clock before the pod was started
+	heldAt             time.Time // latest harness clock reading before a status read that showed targets on this pod
 }
 
 func (n *node) head() int64 {
@@ -169,6 +172,9 @@ func (n *node) restart() error {
 
 // promReload: what "POST /-/reload" makes Prometheus do: read the generated file.
 func (n *node) promReload() error {
+	if n.failReload > 0 {
+		return errors.New("injected: prometheus reload failed")
+	}
 	b, err := os.ReadFile(filepath.Join(n.dir, "prometheus_injected.yaml"))
 	if err != nil {
 		return nil
@@ -304,6 +310,18 @@ type World struct {
 	Log     []string
 	// Scraped[shard id][target id] = requests that shard's proxy really made to the target (counted at the farm)
 	Scraped map[string]map[int]int
+	// removal monitor (C07): per ordinal, when the first pod was created and when targets were last seen there
+	// (both survive pod re-creation: with a kept volume the store carries idle-since over)
+	firstCreated map[int]time.Time
+	heldAtOrd    map[int]time.Time
+	Removals     []Removal
+}
+
+// Removal is one shard removed by a ChangeScale call of the coordinator.
+type Removal struct {
+	Ordinal   int
+	At        time.Time // harness clock when ChangeScale arrived (the coordinator decided before)
+	IdleFloor time.Time // the shard cannot have been idle since before this instant
 }
 
 type gate struct {
@@ -422,7 +440,24 @@ func (w *World) ChangeScale(n int32) error {
 			return err
 		}
 	}
+	at := time.Now()
 	for int(n) < len(w.nodes) {
+		ord := len(w.nodes) - 1
+		nd := w.nodes[ord]
+		floor := nd.createdAt
+		if nd.heldAt.After(floor) {
+			floor = nd.heldAt
+		}
+		if w.Spec.KeepPVC {
+			// the store (and an idle-since in it) outlives the pod: only what is known about the ordinal bounds it
+			floor = w.firstCreated[ord]
+			if w.heldAtOrd[ord].After(floor) {
+				floor = w.heldAtOrd[ord]
+			}
+		}
+		w.mu.Lock()
+		w.Removals = append(w.Removals, Removal{Ordinal: ord, At: at, IdleFloor: floor})
+		w.mu.Unlock()
 		w.removeTail()
 	}
 	return nil
@@ -435,7 +470,10 @@ func (w *World) addNode(readyDelay int) error {
 		_ = os.RemoveAll(dir)
 	}
 	_ = os.MkdirAll(dir, 0755)
-	nd := &node{id: fmt.Sprintf("shard-%d", ord), gen: w.created, dir: dir, w: w, last: map[uint64]int64{}, linger: map[uint64][2]int64{}, readyIn: readyDelay}
+	nd := &node{id: fmt.Sprintf("shard-%d", ord), gen: w.created, dir: dir, w: w, last: map[uint64]int64{}, linger: map[uint64][2]int64{}, readyIn: readyDelay, createdAt: time.Now()}
+	if _, ok := w.firstCreated[ord]; !ok {
+		w.firstCreated[ord] = nd.createdAt
+	}
 	if err := nd.start(); err != nil {
 		return fmt.Errorf("sidecar %s does not start: %w", nd.id, err)
 	}
@@ -452,6 +490,9 @@ func (w *World) removeTail() {
 }
 
 func idleDur(s string) time.Duration {
+	if d, err := time.ParseDuration(s); err == nil && s != "0" {
+		return d
+	}
 	switch s {
 	case "1ns":
 		return time.Nanosecond
@@ -464,7 +505,7 @@ func idleDur(s string) time.Duration {
 // NewWorld builds the world and starts the coordinator (not yet released for its first cycle).
 func NewWorld(spec Spec, root string, rseed int64) (*World, error) {
 	rand.Seed(rseed)
-	w := &World{Spec: spec, root: root, farm: newFarm(), active: map[uint64]*discovery.SDTargets{}, ex: map[uint64]*target.ScrapeStatus{}, posts: map[string]int{}, Scraped: map[string]map[int]int{}}
+	w := &World{Spec: spec, root: root, farm: newFarm(), active: map[uint64]*discovery.SDTargets{}, ex: map[uint64]*target.ScrapeStatus{}, posts: map[string]int{}, Scraped: map[string]map[int]int{}, firstCreated: map[int]time.Time{}, heldAtOrd: map[int]time.Time{}}
 	for _, t := range spec.Targets {
 		w.setTarget(t)
 	}
@@ -570,6 +611,9 @@ func (w *World) Cycle() CycleObs {
 		if nd.staleHash > 0 {
 			nd.staleHash--
 		}
+		if nd.failReload > 0 {
+			nd.failReload--
+		}
 		if nd.readyIn > 0 {
 			nd.readyIn--
 		}
@@ -629,12 +673,16 @@ type ShardEntry struct {
 // Snapshot reads every sidecar's /targets/status/ over HTTP.
 func (w *World) Snapshot() Snapshot {
 	var s Snapshot
-	for _, n := range w.nodes {
+	for ord, n := range w.nodes {
 		m := map[int]ShardEntry{}
 		res := map[uint64]*target.ScrapeStatus{}
+		tb := time.Now()
 		if err := api.Get(n.apiSrv.URL+"/api/v1/shard/targets/status/", &res); err == nil {
 			for h, st := range res {
 				m[IDOf(h)] = ShardEntry{State: st.TargetState, Times: st.ScrapeTimes, Health: string(st.Health), Series: st.Series}
+			}
+			if len(res) > 0 {
+				n.heldAt, w.heldAtOrd[ord] = tb, tb
 			}
 		}
 		s.Shards = append(s.Shards, m)
@@ -708,6 +756,8 @@ func (w *World) Fault(kind string, shardIdx, cycles int) string {
 		n.failRT = cycles
 	case "staleHash":
 		n.staleHash = cycles
+	case "failReload":
+		n.failReload = cycles
 	case "noJobClient":
 		// this pod cannot build the HTTP client of the job (e.g. its CA file is unreadable there):
 		// scrape.Manager.ApplyConfig skips such a job, the configuration hash stays the same
@@ -750,6 +800,15 @@ func (w *World) Gen(i int) int {
 		return -1
 	}
 	return w.nodes[i].gen
+}
+
+// TakeRemovals returns and clears the removals recorded since the last call.
+func (w *World) TakeRemovals() []Removal {
+	w.mu.Lock()
+	defer w.mu.Unlock()
+	r := w.Removals
+	w.Removals = nil
+	return r
 }
 
 // NumShards returns the current number of shards.
